@@ -395,6 +395,8 @@ def est_cost(th, ob, name, jit):
     base = {0: 0.004, 1: 0.05, 2: 0.5, 3: 2.5}[pto] * (n / 8.0)
     if th["FNS"] != "ZM-VFNS" and pto >= 1:
         base *= 2.0 if pto == 1 else 3.0
+    if th["FNS"] != "ZM-VFNS" and pto >= 2 and not name.endswith("_light"):
+        base *= 5.0  # massive NNLO kernels (LeProHQ) dominate, measured ≈ 25 s/point with TMC 1, JIT off
     if th.get("TMC", 0) in (1, 3):
         base *= n * 0.8
     elif th.get("TMC", 0) == 2:
